@@ -361,13 +361,39 @@ func c16Battery() map[string]query.Q {
 
 // proj: a fragment's SymbolInfo whose Kind, Parent and ParentKind are all empty is rendered like a missing SymbolInfo
 // (only used to CLASSIFY a difference that the strict comparison found, see c16Compare)
+func c16SafeSearch(ctx context.Context, d *indexData, q query.Q) (sr *zoekt.SearchResult, err error, panicked any) {
+	defer func() {
+		if r := recover(); r != nil {
+			panicked = r
+		}
+	}()
+	sr, err = d.Search(ctx, q, &zoekt.SearchOptions{Whole: true})
+	return
+}
+
+func c16SafeList(ctx context.Context, d *indexData) (rl *zoekt.RepoList, err error, panicked any) {
+	defer func() {
+		if r := recover(); r != nil {
+			panicked = r
+		}
+	}()
+	rl, err = d.List(ctx, &query.Const{Value: true}, &zoekt.ListOptions{Field: zoekt.RepoListFieldRepos})
+	return
+}
+
 func c16Results(t *testing.T, ds []*indexData, proj bool) map[string][]string {
 	out := map[string][]string{}
 	ctx := context.Background()
 	for name, q := range c16Battery() {
 		var rows []string
 		for _, d := range ds {
-			sr, err := d.Search(ctx, q, &zoekt.SearchOptions{Whole: true})
+			sr, err, pnc := c16SafeSearch(ctx, d, q)
+			if pnc != nil {
+				// a shard on which Search panics (e.g. a branch bit without a branch): reported as a result row, so that
+				// the comparison inputs vs outputs fails with a concrete replay instead of the harness crashing
+				rows = append(rows, fmt.Sprintf("SEARCH PANICS on %s: %v", d.String(), pnc))
+				continue
+			}
 			if err != nil {
 				t.Fatalf("harness: search %s: %v", name, err)
 			}
@@ -396,7 +422,11 @@ func c16Results(t *testing.T, ds []*indexData, proj bool) map[string][]string {
 	// List
 	var rows []string
 	for _, d := range ds {
-		rl, err := d.List(ctx, &query.Const{Value: true}, &zoekt.ListOptions{Field: zoekt.RepoListFieldRepos})
+		rl, err, pnc := c16SafeList(ctx, d)
+		if pnc != nil {
+			rows = append(rows, fmt.Sprintf("LIST PANICS on %s: %v", d.String(), pnc))
+			continue
+		}
 		if err != nil {
 			t.Fatalf("harness: list: %v", err)
 		}
